@@ -95,6 +95,28 @@ class Holder:
         and when FALSE (second list)."""
         a = a.strip()
         T, F = [], []
+        if a.kind == "DeclRefExpr" and a.get("local") and a.get("dk") == "Var":
+            # a bool local that snapshots a flag test (`const bool o = static_cast<bool>(other)`): valid as long as
+            # nothing between the snapshot and the test can change the flag it was taken from
+            did = a.d["d"]
+            init = RA.local_inits(fn).get(did)
+            if init is None or RA._reassigned(fn, did):
+                return None
+            at = self.atom(fn, init, ctor_alias)
+            if at is None:
+                return None
+            if any(who in ("this", "rel") for who, _ in at[0] + at[1]):
+                decl = [n for n in fn.events() if n.kind == "DeclStmt" and any(d.get("d") == did for d in n.get("decls", []))]
+                if not decl:
+                    return None
+                for e in fn.events():
+                    w = write_of(e)
+                    changes = bool(w and w[0] == ("this", self.cfg["flag"]))
+                    if e.is_call() and e.callee and e.callee.get("did") in self.by_did and not e.callee.get("const"):
+                        changes = True
+                    if changes and fn.reaches(decl[0].id, e.id) and fn.reaches(e.id, a.id):
+                        return None
+            return at
         fo = self.flag_owner(fn, a)
         if fo and not self.cfg.get("errflag") and not self.cfg.get("tag"):
             return [(fo, "E")], [(fo, "N")]
@@ -283,6 +305,15 @@ class Holder:
             results = [s]
 
             def lookup(a):
+                # an atom is known when the current abstract state is consistent with only one of its outcomes
+                # (needed for `A && B` terminators: in the block that tests B, A already holds)
+                at = self.atom(fn, a, ctor_alias)
+                if at is None:
+                    return None
+                t_ok = self._apply(s, at[0]) is not None
+                f_ok = self._apply(s, at[1]) is not None
+                if t_ok != f_ok:
+                    return t_ok
                 return None
             cons = []
 
